@@ -32,6 +32,7 @@ type Profile struct {
 	Builtins           bool
 	Outcomes           []string // release outcomes
 	AllowPush          bool
+	PPush              int // weight of Callback steps issued from outside on a push-enabled server (out of 100 steps)
 	Pins               bool
 	Chans              []string
 	PBaseDeadline      int // probability (out of 100) of a server whose request contexts have a 50ms deadline
@@ -177,6 +178,7 @@ func ServerScenario(t *rapid.T, p Profile) sim.Scenario {
 	if len(outcomes) == 0 {
 		outcomes = []string{"ok"}
 	}
+	npush := 0
 	prel := p.PRelease
 	if prel == 0 {
 		prel = 40
@@ -193,6 +195,11 @@ func ServerScenario(t *rapid.T, p Profile) sim.Scenario {
 			st.window = map[string]bool{}
 			sc.Steps = append(sc.Steps, sim.Step{Op: "advance", D: 200})
 			continue
+		case sc.Cfg.AllowPush && p.PPush > 0 && roll >= 100-p.PPush:
+			// a server callback that stays outstanding: its id (1, 2, 3 ...) lives in
+			// a space of its own and must not interfere with the peer's request ids
+			npush++
+			step = sim.Step{Op: "push", Push: "callback", K: npush}
 		case roll < p.PCancel && len(st.LiveIDs) > 0:
 			id := pick(t, "cancelid", st.LiveIDs)
 			if rapid.IntRange(0, 9).Draw(t, "bogus") == 0 {
